@@ -190,6 +190,67 @@ def single_job(job):
     return res
 
 
+def async_cancel_oracle(mod):
+    """A consumer task iterates a subscription with `async for` and is cancelled after j steps of the event loop (every j up
+    to completion).  Whatever was popped from the transport was handed to the consumer: delivered + still queued = published,
+    nothing twice."""
+    import asyncio
+    out = []
+
+    async def scenario(j, n):
+        tr = mod.InMemorySemantivaTransport()
+        tr.connect()
+        pubs = []
+        for k in range(n):
+            ch = "jobs.%s.cfg" % "ab"[k % 2]
+            tr.publish(ch, [0, k, ch], {})
+            pubs.append((0, k, ch))
+        got = []
+        sub = tr.subscribe("jobs.*.cfg")
+
+        async def consume():
+            async for m in sub:
+                got.append(tuple(m.data))
+                await asyncio.sleep(0)          # the consumer's own work between two messages
+        task = asyncio.ensure_future(consume())
+        for _ in range(j):
+            await asyncio.sleep(0)
+            if task.done():
+                break
+        finished = task.done()
+        task.cancel()
+        try:
+            await task
+        except BaseException:  # noqa - CancelledError
+            pass
+        sub.close()
+        rest = [tuple(m.data) for m in tr.subscribe("*")]
+        return pubs, got, rest, finished
+    n = 5
+    for j in range(0, 4 * n + 4):
+        loop = asyncio.new_event_loop()
+        try:
+            pubs, got, rest, finished = loop.run_until_complete(scenario(j, n))
+        except Exception as ex:  # noqa
+            out.append(("C14:async-iteration-fails", "async for over a subscription raised %r" % (ex,)))
+            break
+        finally:
+            loop.close()
+        seen = got + rest
+        lost = [p for p in pubs if p not in seen]
+        if lost:
+            out.append(("C14:lost-message:async-consumer-cancelled",
+                        "consumer task cancelled after %d event-loop steps: %d of %d published messages neither delivered nor left queued, first %s "
+                        "(delivered %d, still queued %d)" % (j, len(lost), len(pubs), list(lost[0]), len(got), len(rest))))
+            break
+        if len(set(seen)) != len(seen):
+            out.append(("C14:duplicate-delivery", "consumer task cancelled after %d event-loop steps: a message is seen twice" % j))
+            break
+        if finished:
+            break
+    return out
+
+
 def sequential_job(job):
     """Single-threaded operation sequences (no scheduler): early-closing consumers, re-publication,
     later drains.  Direct oracle only: exactly-once and per-(publisher, channel) order."""
@@ -265,6 +326,9 @@ def sequential_job(job):
                 if sub is not None:
                     sub.close()
                     mops.append(["close", idx])
+            elif op[0] == "tclose":        # another participant of the shared in-process transport leaves (close), or (re)connects:
+                                           # both are documented no-ops for the queued messages of everybody else
+                getattr(tr, op[1])()
             elif op[0] == "drain":
                 mops.append(["drain", op[1]])
                 for m in tr.subscribe(op[1]):
@@ -325,6 +389,11 @@ def sequential_job(job):
     run("close() inside the loop body, iteration continues once", [("pub", "c", 4), ("open", "c", 1), ("mark-closed", "c", 2), ("close",), ("drain", "c")])
     run("close() before the first next()", [("pub", "c", 2), ("mark-closed", "c", 1), ("close",), ("drain", "c")])
     run("close() of a wildcard subscription mid-way", [("pub", "a.x", 2), ("pub", "a.y", 2), ("open", "a.*", 2), ("mark-closed", "a.*", 3), ("close",), ("drain", "*")])
+    run("another participant closes the shared transport while messages are pending", [("pub", "c", 3), ("pub", "d", 2), ("tclose", "close"), ("drain", "*")])
+    run("close() between a partial take and the drain", [("pub", "a.x", 3), ("take", "a.*", 1), ("tclose", "close"), ("pub", "a.x", 1), ("drain", "*")])
+    run("connect() again while messages are pending", [("pub", "c", 2), ("tclose", "connect"), ("drain", "c")])
+    # asynchronous consumption (`async for`) cancelled at every point where the consumer task can be suspended
+    bad.extend(async_cancel_oracle(mod))
     # a backlog: many undelivered messages on one channel (a late consumer), two channels, a wildcard drain
     run("backlog of 70000 messages on one channel, late consumer", [("pub", "bulk", 70000), ("drain", "bulk")], model=False)
     run("backlog on two channels, wildcard drain", [("pub", "b.x", 9000), ("pub", "b.y", 9000), ("pub", "b.x", 10), ("drain", "b.*")], model=False)
